@@ -27,8 +27,14 @@ def load_check(pid):
     return importlib.import_module('checks.' + pid.lower())
 
 
+DEADLINE = [None]
+
+
 def _run_ob(args):
     modname, ob, sample_paths = args
+    if DEADLINE[0] is not None and time.time() > DEADLINE[0]:
+        return dict(paths=0, aborted=0, decisions=0, violations=[], unsupported=[], samples=[], exhaustive=False, failures_by_sig={}, queries=0, solver_s=0.0,
+                    wall_s=0.0, leaks=0, name=ob.name, harness=ob.harness, params=ob.params, skipped='time budget of the tier exhausted before this obligation started')
     from engines.pysym import explore
     mod = sys.modules[modname]
     fn = getattr(mod, ob.harness)
@@ -121,8 +127,11 @@ def run_check(pid, tier, mod=None, extra_stages=(), extra_cov=None):
     obs = list(mod.obligations(tier))
     import random
     random.Random(seed).shuffle(obs)
-    obs.sort(key=lambda o: -o.cost)
+    # cheap obligations first: under the tier's time budget breadth comes before depth
+    obs.sort(key=lambda o: o.cost)
     sample_paths = 2 if tier == 'quick' else 4
+    budget = float(os.environ.get('VERIF_BUDGET_S', 900 if tier == 'quick' else 2400))
+    DEADLINE[0] = t0 + budget
     ctx = multiprocessing.get_context('fork')
     results = []
     with ctx.Pool(min(NPROC, max(1, len(obs)))) as pool:
@@ -226,7 +235,8 @@ def finish(pid, tier, mod, results, t0, seed, extra=None, ground_bad=()):
         rule=('one evaluation = one feasible path of the real code under the symbolic inputs of an obligation (a region of the input '
               'space decided by z3); all are distinct path conditions; non-trivial = reached the postcondition'),
         obligations=len(results), discharged=sum(1 for r in results if r['exhaustive'] and not r['unsupported']),
-        inconclusive=[r['name'] for r in results if not r['exhaustive'] or r['unsupported']],
+        inconclusive=[r['name'] for r in results if not r['exhaustive'] or r['unsupported']][:200],
+        not_run_for_lack_of_time=sum(1 for r in results if r.get('skipped')),
         exhaustive=exhaustive and not harness_errors,
         solver_queries=sum(r['queries'] for r in results), solver_s=round(sum(r['solver_s'] for r in results), 2),
         aborted_infeasible=sum(r['aborted'] for r in results),
